@@ -30,6 +30,8 @@ ENGINES = [
      "kind_free_text": "history: predecessor transaction(s) then probe on one WAF (pooled object reuse); probe outcome vs Lean model on a fresh state"},
     {"name": "engrep", "path": "go/cmd/corr/eng.go", "serves_properties": ["C04", "C12"],
      "kind_free_text": "repetition: each generated case 13x on fresh WAFs; all outcomes equal each other and the Lean model"},
+    {"name": "auditiso", "path": "go/cmd/corr/audit.go", "serves_properties": ["C05"],
+     "kind_free_text": "history: predecessor changing audit engine/parts by ctl, then probe on one WAF with a real audit log; the probe's record vs the Lean model on a fresh state"},
     {"name": "eng", "path": "go/cmd/corr/eng.go", "serves_properties": ["C01", "C02", "C04", "C08", "C09", "C12", "C17"],
      "kind_free_text": "differential: structured rule sets + requests + API call sequences on the real WAF vs the Lean engine model (profiles per property)"},
     {"name": "body", "path": "go/cmd/corr/body.go", "serves_properties": ["C10"],
@@ -42,7 +44,7 @@ ENGINES = [
      "kind_free_text": "differential: Go operator factories/Evaluate vs Lean models (= documented predicates)"},
 ]
 _ENG_NOTE = (_TB + "Operators and transformations are parameters of the engine theorems (proved for every interpretation); "
-             "the driver instantiates them with the C14/C15 models. Regex keys, @rx, body processors, multiphase build are "
+             "the driver instantiates them with the C14/C15 models and the regex model. @rx inside the engine, body processors, multiphase build are "
              "outside the engine model.")
 CLAIMED = {
     "C01": dict(
@@ -161,8 +163,11 @@ CLAIMED = {
     "C17": dict(
         text="Lean 4 theorems: the rules loop over the full list equals the loop over the list with removed ids filtered out "
              "(skip counting, markers, allow included), for any removal set recorded in the transaction; ranges equal their "
-             "enumeration; a run-time target removal equals the rule written with the extra !VAR:key and touches no other "
-             "variable. Tied to /repo by `eng` (profile ctl).",
+             "enumeration; a run-time target removal (string or regex key) equals the rule written with the extra !VAR:key and "
+             "touches no other variable; configuration-time: SecRuleRemoveById with any list of ids and ranges leaves exactly "
+             "the rules no element names (= the configuration that never contained them), SecRuleUpdateTargetById/ByTag give the "
+             "rule compiled from the original target list followed by the added one, and an id list updates every rule once per "
+             "element naming it (C17_update_rules). Tied to /repo by `eng` (profiles ctl and dirs).",
         note=_ENG_NOTE, ref="6/C17", engine="eng"),
     "C02": dict(
         text="Lean 4 theorems over the engine model for every rule set, request and API call sequence of any length: an "
